@@ -50,6 +50,17 @@ type BatchRec struct {
 	Restart bool // first batch of a (re)started controller
 	Obs     BatchObs
 	CT      int // change type returned by the real Process()
+	// pipeline stream (Runner.KeepStates): what the long-lived controller holds applied after this batch
+	Snap *pipeSnap
+	// States[i] of the Result is the cluster each event of the batch was reconciled from
+	EvState []int
+}
+
+// pipeSnap: the files last handed to the file manager and ReferencedServices of the latest graph.
+type pipeSnap struct {
+	HasFiles              bool
+	HTTP, Stream, Matches string
+	RefSvcs               []string
 }
 
 // Snapshot is the order-normalised view of what was last applied / issued.
@@ -89,6 +100,8 @@ type Result struct {
 	ctrl                  *Ctrl // the long-lived controller at the end of the run
 	SvcWatch              []string
 	world                 *World
+	// States: the cluster at the start and after every applied mutation (Runner.KeepStates)
+	States [][]client.Object
 }
 
 type Runner struct {
@@ -99,6 +112,35 @@ type Runner struct {
 	Samples int
 	// shuffle drives the permutation of the start-up events of the fresh sample controllers
 	shuffle *rng.R
+	// KeepStates: record cluster states and per-batch applied files (pipeline stream)
+	KeepStates bool
+}
+
+func (rn *Runner) snap(c *Ctrl) *pipeSnap {
+	if !rn.KeepStates {
+		return nil
+	}
+	sn := &pipeSnap{HasFiles: c.files.calls > 0, RefSvcs: []string{}}
+	if sn.HasFiles {
+		sn.HTTP = p.FileText(c.files.last, "/etc/nginx/conf.d/http.conf")
+		sn.Stream = p.FileText(c.files.last, "/etc/nginx/stream-conf.d/stream.conf")
+		sn.Matches = p.FileText(c.files.last, matchesFile)
+	}
+	if g := c.proc.real.GetLatestGraph(); g != nil {
+		for k := range g.ReferencedServices {
+			sn.RefSvcs = append(sn.RefSvcs, k.Namespace+"/"+k.Name)
+		}
+	}
+	sort.Strings(sn.RefSvcs)
+	return sn
+}
+
+func constInts(n, v int) []int {
+	out := make([]int, n)
+	for i := range out {
+		out[i] = v
+	}
+	return out
 }
 
 type live struct {
@@ -158,7 +200,8 @@ func (rn *Runner) startOrd(w *World, res *Result, permute bool) (*Ctrl, [2]map[s
 	}
 	obs := c.Handle(fb)
 	if res != nil {
-		res.Batches = append(res.Batches, BatchRec{Restart: true, Obs: obs, CT: c.proc.lastCT})
+		res.Batches = append(res.Batches, BatchRec{Restart: true, Obs: obs, CT: c.proc.lastCT, Snap: rn.snap(c),
+			EvState: constInts(len(obs.In), len(res.States)-1)})
 	}
 	if c.Panic != "" {
 		return c, none, nil
@@ -188,7 +231,8 @@ func (rn *Runner) startOrd(w *World, res *Result, permute bool) (*Ctrl, [2]map[s
 	if len(replay) > 0 {
 		obs := c.Handle(replay)
 		if res != nil {
-			res.Batches = append(res.Batches, BatchRec{Obs: obs, CT: c.proc.lastCT})
+			res.Batches = append(res.Batches, BatchRec{Obs: obs, CT: c.proc.lastCT, Snap: rn.snap(c),
+				EvState: constInts(len(obs.In), len(res.States)-1)})
 		}
 	}
 	return c, firstFiles, nil
@@ -210,6 +254,9 @@ func (rn *Runner) Run(h *History) (res *Result) {
 			return res
 		}
 	}
+	if rn.KeepStates {
+		res.States = append(res.States, w.Objects())
+	}
 	c, _, err := rn.start(w, res)
 	if err != nil {
 		res.Err = err.Error()
@@ -230,7 +277,11 @@ func (rn *Runner) Run(h *History) (res *Result) {
 			return true
 		}
 		obs := c.Handle(pending)
-		res.Batches = append(res.Batches, BatchRec{Obs: obs, CT: c.proc.lastCT})
+		evState := make([]int, len(pendingMuts))
+		for i, mi := range pendingMuts {
+			evState[i] = mi + 1 // the event was reconciled right after mutation mi
+		}
+		res.Batches = append(res.Batches, BatchRec{Obs: obs, CT: c.proc.lastCT, Snap: rn.snap(c), EvState: evState})
 		b := len(res.Batches) - 1
 		// attribute what became of each event to its mutation (a mutation seen by several controllers has several events)
 		for i, mi := range pendingMuts {
@@ -419,6 +470,9 @@ func (rn *Runner) Run(h *History) (res *Result) {
 			}
 			m.Disp = "filtered"
 			res.Muts = append(res.Muts, m)
+			if rn.KeepStates {
+				res.States = append(res.States, w.Objects())
+			}
 			if m.Delivered {
 				got := 0
 				for i := deliveries(ws, oldObj, newObj); i > 0; i-- {
